@@ -22,7 +22,17 @@ pub enum Outcome {
     Err(String),
 }
 
+/// the full text of the most recent execution error (for replay details only)
+pub static LAST_ERR: std::sync::Mutex<String> = std::sync::Mutex::new(String::new());
+
+pub fn last_err() -> String {
+    LAST_ERR.lock().map(|s| s.chars().take(400).collect()).unwrap_or_default()
+}
+
 pub fn err_class(msg: &str) -> String {
+    if let Ok(mut l) = LAST_ERR.lock() {
+        *l = msg.lines().next().unwrap_or("").to_string();
+    }
     let m = msg.to_lowercase();
     if m.contains("divide by zero") {
         "err:div0".into()
@@ -93,7 +103,7 @@ pub async fn run_logical(ctx: &SessionContext, plan: &LogicalPlan) -> Outcome {
         let batches = df.collect().await?;
         // the stream's own schema when there is one (it is what the consumer sees)
         let schema = batches.first().map(|b| b.schema()).unwrap_or(schema);
-        datafusion_common::Result::Ok((schema, batches))
+        Ok::<_, datafusion_common::DataFusionError>((schema, batches))
     };
     match tokio::time::timeout(DEADLINE, fut).await {
         Err(_) => Outcome::Err("err:timeout".into()),
@@ -119,6 +129,8 @@ pub enum SchemaLevel {
     Full,
     /// names and types
     NamesTypes,
+    /// exact types only (names and nullability flags are not compared)
+    TypesExact,
     /// types only, up to logical equivalence (Utf8 ~ LargeUtf8 ~ Utf8View)
     LogicalTypes,
 }
@@ -156,8 +168,8 @@ pub fn same_outcome(a: &Outcome, b: &Outcome, ordered: bool, level: SchemaLevel)
                 Err(("error".into(), format!("before {x} after {y}")))
             }
         }
-        (Outcome::Err(x), Outcome::Rows { .. }) => Err(("error".into(), format!("before fails with {x}, after returns rows"))),
-        (Outcome::Rows { .. }, Outcome::Err(y)) => Err(("error".into(), format!("before returns rows, after fails with {y}"))),
+        (Outcome::Err(x), Outcome::Rows { .. }) => Err(("error".into(), format!("before fails with {x} ({}), after returns rows", last_err()))),
+        (Outcome::Rows { .. }, Outcome::Err(y)) => Err(("error".into(), format!("before returns rows, after fails with {y} ({})", last_err()))),
         (Outcome::Rows { schema: sa, rows: ra }, Outcome::Rows { schema: sb, rows: rb }) => {
             if sa.len() != sb.len() {
                 return Err(("arity".into(), format!("{} vs {} columns", sa.len(), sb.len())));
@@ -167,7 +179,7 @@ pub fn same_outcome(a: &Outcome, b: &Outcome, ordered: bool, level: SchemaLevel)
                 if !ty_ok {
                     return Err(("type".into(), format!("column {i}: {} vs {}", x.1, y.1)));
                 }
-                if level != SchemaLevel::LogicalTypes && x.0 != y.0 {
+                if (level == SchemaLevel::Full || level == SchemaLevel::NamesTypes) && x.0 != y.0 {
                     return Err(("name".into(), format!("column {i}: `{}` vs `{}`", x.0, y.0)));
                 }
                 if level == SchemaLevel::Full && x.2 != y.2 {
